@@ -295,6 +295,14 @@ func vfC03(c *hx.Ctx) {
 	c.Rule("core pair; the reader stops after every possible number of delivered segments for {0.3s (< first probe), 0.7s, 5s, 130s (> probe cap)}; " +
 		"every subset of the first N control-only (ACK/WASK/WINS) datagrams emitted after the pause began is lost (N=6 quick, 9 thorough); receive window {1,2,4} (thorough {1,2,3,4,8}, also in no-delay mode) against a sender assuming 32; " +
 		"nc in {0,1}; both driving modes. Non-trivial = at least one control datagram lost.")
+	// whole sessions first (a bounded share of the time)
+	{
+		full := c.Deadline
+		c.Deadline = time.Now().Add(time.Until(full) * 30 / 100)
+		hx.NoCache = false
+		vfC03sess(c)
+		c.Deadline = full
+	}
 	hx.NoCache = true
 	c.ByUnit = true
 	n := hx.Pick(c, 6, 9)
